@@ -125,7 +125,7 @@ PROPS['C12'] = {
 }
 PROPS['C18'] = {
     'units': ['ops', 'eval'],
-    'functions': {'ops': ['eval_ex', 'eval_ax', 'eval_eg', 'eval_af', 'eval_au', 'eval_ew', 'eval_neg'], 'eval': ['eval_node', 'compute_steady_states']},
+    'functions': {'ops': ['eval_ex', 'eval_ax', 'eval_eg', 'eval_af', 'eval_au', 'eval_ew', 'eval_neg'], 'eval': ['eval_node', 'compute_steady_states', 'is_fixed_point_pattern', 'is_attractor_pattern']},
     'level_text': ('Proof that eval_node is correct for an ARBITRARY self-loop set on formulae without EX, AX, AF, EG, AU, EW (precondition '
                    '"steady == steady_set() or loop_insensitive(tree)"), and lemma that the semantics of such formulae does not depend on the '
                    'self-loop set; on networks without steady states both variants receive the same (empty) set.'),
